@@ -4,12 +4,21 @@
 package main
 
 import (
+	"bytes"
+	"context"
 	"crypto/sha256"
+	"encoding/json"
+	"errors"
 	"fmt"
 	"math/rand"
+	"os"
+	"os/exec"
+	"strconv"
+	"strings"
 	"time"
 
 	"github.com/paulmach/osm"
+	"github.com/paulmach/osm/annotate"
 	"verif/harness/annot"
 	"verif/harness/wire"
 )
@@ -272,6 +281,58 @@ func twoFaults(npar int, extraGood int) *annot.Input {
 	return in
 }
 
+// missingSibling: a parent version referencing one child WITHOUT history next to nsib children that
+// each produce minor versions (updates) for it.  kind: 0 never listed, 1 not found, 2 found but
+// empty.  pos: where the missing child stands among the references.  Under IgnoreMissingChildren
+// the updates of the siblings must be the same in every run, wherever the missing child falls in
+// the map iteration; without the option every run must fail with the same error.
+func missingSibling(isRel, commit bool, kind, nsib, pos, npar int, ignoreMissing, ignoreIncons, asChildren bool) *annot.Input {
+	regime, base := "commit", osm.CommitInfoStart.Add(700*24*time.Hour)
+	if !commit {
+		regime, base = "old", osm.CommitInfoStart.Add(-1500*24*time.Hour)
+	}
+	in := &annot.Input{IsRel: isRel, Threshold: 30 * time.Minute, Regime: regime, IgnoreMissing: ignoreMissing, IgnoreIncons: ignoreIncons, AsChildren: asChildren}
+	mk := func(h int) (time.Time, *time.Time) {
+		t := base.Add(time.Duration(h) * time.Hour)
+		if commit {
+			c := t
+			return t, &c
+		}
+		return t, nil
+	}
+	missing := osm.NodeID(900).FeatureID()
+	var refs []annot.Ref
+	for g := 0; g < nsib; g++ {
+		if g == pos {
+			refs = append(refs, annot.Ref{FID: missing})
+		}
+		fid := osm.NodeID(10 + g).FeatureID()
+		h := annot.Hist{FID: fid}
+		// one version before the first parent, then two or three between / after the parents
+		for v, at := range []int{0, 12 + g, 13 + g, 40 + g, 41 + 2*g} {
+			ts, com := mk(at)
+			h.Versions = append(h.Versions, annot.Hver{Version: v + 1, Changeset: int64(100 + 10*g + v), Timestamp: ts, Committed: com, Lat: float64(g), Lon: float64(v), Visible: true})
+		}
+		in.Hists = append(in.Hists, h)
+		refs = append(refs, annot.Ref{FID: fid})
+	}
+	if pos >= nsib {
+		refs = append(refs, annot.Ref{FID: missing})
+	}
+	switch kind {
+	case 1:
+		in.Hists = append(in.Hists, annot.Hist{FID: missing, Kind: 1})
+	case 2:
+		in.Hists = append(in.Hists, annot.Hist{FID: missing, Kind: 0})
+	}
+	for p := 0; p < npar; p++ {
+		pt, pc := mk(10 + 25*p)
+		in.Parents = append(in.Parents, annot.Parent{Changeset: int64(50 + p), Visible: true, Timestamp: pt, Committed: pc, Refs: append([]annot.Ref(nil), refs...)})
+	}
+	in.ComputeReverse()
+	return in
+}
+
 // bulkCase: one parent version with nch children of nver later versions each (nch*nver updates):
 // size thresholds.  The result is not shipped to Coq; observed are the number of updates, whether
 // the list is ordered, and whether nruns runs are identical (SHA-256 of the serialised result).
@@ -362,6 +423,137 @@ func bulkCase(w *wire.Writer, nch, nver, nruns int) *wire.Case {
 	c.Desc = map[string]interface{}{"bulk": fmt.Sprintf("one way version (commit regime) referencing nodes 1000..%d, each with version 1 before the way and %d later versions one second apart; annotate.Ways run %d times", 1000+nch-1, nver, nruns),
 		"children": nch, "later_versions_each": nver, "observed_updates": count, "expected_updates": nch * nver, "ordered": sorted, "runs_identical": identical, "status": status}
 	w.Count(fmt.Sprintf("bulk:%d_updates", nch*nver))
+	return c
+}
+
+// ---- class stress: a multipolygon relation with many way members, annotated repeatedly in a CHILD
+// process (this executable run again with VERIF_C12_STRESS set, GOMAXPROCS 8) whose datasource
+// answers every lookup after the same short pause, so that lookups running side by side (if the
+// implementation runs any) finish together.  Sequential code gives the same bytes in every run.
+// Code that handles the children on several goroutines races in parentRelation.SetChild (the
+// lazily allocated way cache): members lose their orientation in some runs, or the runtime aborts
+// the process with "concurrent map writes" — which is why the runs are made in a child process.
+
+var errStressNF = errors.New("not found")
+
+type stressDS struct{ ways map[osm.WayID]osm.Ways }
+
+func (d *stressDS) NodeHistory(context.Context, osm.NodeID) (osm.Nodes, error) { return nil, errStressNF }
+func (d *stressDS) RelationHistory(context.Context, osm.RelationID) (osm.Relations, error) {
+	return nil, errStressNF
+}
+func (d *stressDS) WayHistory(_ context.Context, id osm.WayID) (osm.Ways, error) {
+	time.Sleep(2 * time.Millisecond)
+	ws, ok := d.ways[id]
+	if !ok {
+		return nil, errStressNF
+	}
+	out := make(osm.Ways, len(ws))
+	for i, w := range ws {
+		c := *w
+		c.Nodes = append(osm.WayNodes(nil), w.Nodes...)
+		out[i] = &c
+	}
+	return out, nil
+}
+func (d *stressDS) NotFound(err error) bool { return err == errStressNF }
+
+// stressInput: one multipolygon relation version with n outer rings (closed squares side by side,
+// alternately drawn clockwise and counter-clockwise), every way with one version before the relation.
+func stressInput(n int) (osm.Relations, *stressDS) {
+	t0 := osm.CommitInfoStart.Add(900 * 24 * time.Hour)
+	d := &stressDS{ways: map[osm.WayID]osm.Ways{}}
+	rt := t0.Add(time.Hour)
+	rc := rt
+	r := &osm.Relation{ID: 1, Version: 1, Visible: true, ChangesetID: 7, Timestamp: rt, Committed: &rc, Tags: osm.Tags{{Key: "type", Value: "multipolygon"}}}
+	for i := 0; i < n; i++ {
+		id := osm.WayID(100 + i)
+		x := float64(i) * 3
+		sq := [][2]float64{{0, x}, {0, x + 1}, {1, x + 1}, {1, x}, {0, x}}
+		if i%2 == 1 {
+			sq = [][2]float64{{0, x}, {1, x}, {1, x + 1}, {0, x + 1}, {0, x}}
+		}
+		var ns osm.WayNodes
+		for k, pt := range sq {
+			ns = append(ns, osm.WayNode{ID: osm.NodeID(1000 + 4*i + k%4), Version: 1, Lat: pt[0], Lon: pt[1]})
+		}
+		wc := t0
+		d.ways[id] = osm.Ways{{ID: id, Version: 1, Visible: true, ChangesetID: 3, Timestamp: t0, Committed: &wc, Nodes: ns}}
+		r.Members = append(r.Members, osm.Member{Type: osm.TypeWay, Ref: int64(id), Role: "outer"})
+	}
+	return osm.Relations{r}, d
+}
+
+// stressChild: the child process; prints one line per run.
+func stressChild(spec string) {
+	f := strings.Split(spec, ",")
+	n, _ := strconv.Atoi(f[0])
+	runs, _ := strconv.Atoi(f[1])
+	for r := 0; r < runs; r++ {
+		rs, d := stressInput(n)
+		if err := annotate.Relations(context.Background(), rs, d); err != nil {
+			fmt.Printf("E %v\n", err)
+			continue
+		}
+		b, _ := json.Marshal(rs)
+		sum := sha256.Sum256(b)
+		oriented := 0
+		for _, m := range rs[0].Members {
+			if m.Orientation != 0 {
+				oriented++
+			}
+		}
+		fmt.Printf("H %x %d\n", sum[:7], oriented)
+	}
+}
+
+func stressCase(w *wire.Writer, n, nruns int) *wire.Case {
+	cmd := exec.Command(os.Args[0])
+	cmd.Env = append(os.Environ(), fmt.Sprintf("VERIF_C12_STRESS=%d,%d", n, nruns), "GOMAXPROCS=8")
+	var stdout, stderr bytes.Buffer
+	cmd.Stdout, cmd.Stderr = &stdout, &stderr
+	runErr := cmd.Run()
+	status := 0
+	var hashes []uint64
+	var oriented []string
+	identical := true
+	for _, line := range strings.Split(strings.TrimSpace(stdout.String()), "\n") {
+		f := strings.Fields(line)
+		switch {
+		case len(f) == 3 && f[0] == "H":
+			h, _ := strconv.ParseUint(f[1], 16, 64)
+			if len(hashes) > 0 && h != hashes[0] {
+				identical = false
+			}
+			hashes = append(hashes, h)
+			oriented = append(oriented, f[2])
+		case len(f) > 0 && f[0] == "E":
+			status = 8 // a run returned an error
+		}
+	}
+	abort := ""
+	if runErr != nil {
+		status = 9 // the process running the annotations was aborted
+		abort = strings.SplitN(strings.TrimSpace(stderr.String()), "\n", 2)[0]
+	}
+	c := &wire.Case{Class: "stress"}
+	c.Int(3).Int(int64(n)).Int(0).Int(int64(nruns)).Int(int64(status)).Int(0).Bool(true)
+	c.Len(len(hashes))
+	for _, h := range hashes {
+		c.Tok(h)
+	}
+	c.Len(0)
+	switch {
+	case status == 9:
+		c.OracleFail = "the process annotating equal input repeatedly was aborted: " + abort
+	case status != 0:
+		c.OracleFail = "a run on a consistent input failed"
+	case !identical || len(hashes) != nruns:
+		c.OracleFail = "runs on equal input give different results"
+	}
+	c.Desc = map[string]interface{}{"stress": fmt.Sprintf("one multipolygon relation version with %d outer ring ways (closed squares, alternately clockwise / counter-clockwise; every way one version before the relation, no updates expected), annotate.Relations run %d times in a child process with GOMAXPROCS=8; every history lookup answers after 2 ms", n, nruns),
+		"members": n, "runs": nruns, "status": status, "abort": abort, "runs_identical": identical, "members_with_orientation_per_run": oriented}
+	w.Count(fmt.Sprintf("stress:%d_members", n))
 	return c
 }
 
@@ -489,10 +681,14 @@ func reannCase(w *wire.Writer, rng *rand.Rand, in *annot.Input, nruns int) *wire
 }
 
 func main() {
+	if spec := os.Getenv("VERIF_C12_STRESS"); spec != "" {
+		stressChild(spec)
+		return
+	}
 	a := wire.ParseArgs()
 	rng := wire.Rng(a.Seed)
 	w := wire.NewWriter("C12", a.Seed, a.Tier)
-	w.Rule = "ANN: an edit history annotated 8 (quick) / 24 (thorough) times on deep copies through annotate.Ways / annotate.Relations; classes: bulk (one parent version with children x later versions updates around size thresholds 2048 ... 32768/65536; count, order and run-to-run identity observed, the count checked against the specification in Coq), two_faults (a child without visible version and a child without history in the same parent version, IgnoreInconsistency only), big (31/32/33/64/72 parent versions with interleaved child edits), option_sequence (an input with default options annotated before and after ONE call that passes every option), clock (a version stamped a moment ahead of the wall clock, half of the runs before and half after that instant; versions dated 2100), sequence (a small input annotated before and after an unrelated call with >= 64 parent versions in the same process), big, reannotate (full annotation, then filtered re-annotation of the same already annotated objects with ChildFilter; the model gets the second call's input), corpus (minimised past failures), ties (13-40 updates per parent, versions of one child in the same second, children repeated, versions stamped a few seconds before their predecessor), random histories (all regimes, errors, options). SORT: osm.Updates.SortByIndex on 0-40 updates with equal (index, timestamp) groups. Equal instants are represented with different *time.Location values. Non-trivial = at least one update produced (ANN) or >= 2 updates (SORT); distinct = distinct token streams."
+	w.Rule = "ANN: an edit history annotated 8 (quick) / 24 (thorough) times on deep copies through annotate.Ways / annotate.Relations; classes: bulk (one parent version with children x later versions updates around size thresholds 2048 ... 32768/65536; count, order and run-to-run identity observed, the count checked against the specification in Coq), two_faults (a child without visible version and a child without history in the same parent version, IgnoreInconsistency only), missing_sibling (a child never listed / not found / with an empty history next to 2-6 siblings that each produce updates, under all four combinations of the ignore options, ways and relations, 16/48 runs), big (31/32/33/64/72 parent versions with interleaved child edits), stress (one multipolygon relation version with 3-150 outer ring ways annotated 4-40 times in a child process with GOMAXPROCS=8 and a datasource that answers every lookup after 2 ms; all runs must end and give the same bytes, orientation included), option_sequence (an input with default options annotated before and after ONE call that passes every option), clock (a version stamped a moment ahead of the wall clock, half of the runs before and half after that instant; versions dated 2100), sequence (a small input annotated before and after an unrelated call with >= 64 parent versions in the same process), big, reannotate (full annotation, then filtered re-annotation of the same already annotated objects with ChildFilter; the model gets the second call's input), corpus (minimised past failures), ties (13-40 updates per parent, versions of one child in the same second, children repeated, versions stamped a few seconds before their predecessor), random histories (all regimes, errors, options). SORT: osm.Updates.SortByIndex on 0-40 updates with equal (index, timestamp) groups. Equal instants are represented with different *time.Location values. Non-trivial = at least one update produced (ANN) or >= 2 updates (SORT); distinct = distinct token streams."
 	nruns, nties, nrand, nsort, nreann := 8, 70, 100, 120, 50
 	if a.Tier == "thorough" {
 		nruns, nties, nrand, nsort, nreann = 24, 1200, 2500, 2500, 1200
@@ -524,6 +720,22 @@ func main() {
 		c, _ := annCase(w, twoFaults(sh[0], sh[1]), 2*nruns, "two_faults")
 		w.Add(c)
 	}
+	// a child without history next to siblings that produce updates, repeated runs, every
+	// combination of the two ignore options
+	{
+		k := 0
+		for _, isRel := range []bool{false, true} {
+			for kind := 0; kind < 3; kind++ {
+				for combo := 0; combo < 4; combo++ {
+					nsib := 2 + (k*3)%5
+					in := missingSibling(isRel, k%3 != 0, kind, nsib, k%(nsib+1), 1+k%2, combo&1 != 0, combo&2 != 0, k%4 == 3)
+					c, _ := annCase(w, in, 2*nruns, "missing_sibling")
+					w.Add(c)
+					k++
+				}
+			}
+		}
+	}
 	// size thresholds of one update list
 	bulk := [][2]int{{3, 4}, {40, 820}}
 	if a.Tier == "thorough" {
@@ -531,6 +743,14 @@ func main() {
 	}
 	for _, b := range bulk {
 		w.Add(bulkCase(w, b[0], b[1], 3))
+	}
+	// many members of one multipolygon relation, repeated runs in a child process
+	stress := [][2]int{{3, 4}, {40, 12}}
+	if a.Tier == "thorough" {
+		stress = [][2]int{{3, 4}, {9, 40}, {40, 40}, {150, 20}}
+	}
+	for _, sc := range stress {
+		w.Add(stressCase(w, sc[0], sc[1]))
 	}
 	for _, commit := range []bool{true, false} {
 		w.Add(clockCase(w, nruns, commit))
